@@ -200,6 +200,9 @@ class C11(Check):
         for t in gen.TYPES:
             for api in ("append_records", "tx_append_data"):
                 yield {"part": "values", "type": t, "api": api}
+        for z in ("JST-9", "PST8PDT,M3.2.0,M11.1.0", "IST-5:30"):      # temporal values under non-UTC process time zones
+            for t in ("timestamp", "date", "time"):
+                yield {"part": "values", "type": t, "api": "append_records", "tz": z}
         for t in ("long", "int", "date", "double"):          # field type spelled {"type": t}
             yield {"part": "values", "type": t, "api": "append_records", "dict_type": True}
         for v in SCHEMA_VARIANTS:
